@@ -5,7 +5,8 @@ package service
 // C10 harness, part 1: instrumented receivers/processors/exporters/connectors/extensions that record
 // every Start/Shutdown call (and its outcome) in a per-case world log, a receiver variant that wraps
 // internal/sharedcomponent, the factories, the random configuration generator (pipelines/connectors
-// copied from harness/c09/graph_test.go) and the Settings/Config builder for the real service.New.
+// copied from harness/c09/graph_test.go) and vMaps (config/factory maps). Package-independent: lib/props/c10.py generates a copy
+// with `package otelcol` for the collector harness.
 
 import (
 	"context"
@@ -16,11 +17,7 @@ import (
 	"strconv"
 	"strings"
 
-	"go.uber.org/zap"
-	"go.uber.org/zap/zapcore"
-
 	"go.opentelemetry.io/collector/component"
-	"go.opentelemetry.io/collector/config/configtelemetry"
 	"go.opentelemetry.io/collector/confmap"
 	"go.opentelemetry.io/collector/connector"
 	"go.opentelemetry.io/collector/connector/xconnector"
@@ -43,7 +40,6 @@ import (
 	"go.opentelemetry.io/collector/receiver/xreceiver"
 	"go.opentelemetry.io/collector/service/extensions"
 	"go.opentelemetry.io/collector/service/pipelines"
-	"go.opentelemetry.io/collector/service/telemetry"
 )
 
 var vSignals = []pipeline.Signal{pipeline.SignalTraces, pipeline.SignalMetrics, pipeline.SignalLogs, xpipeline.SignalProfiles}
@@ -106,11 +102,47 @@ type vWorld struct {
 	log          []vEv
 	failStart    map[string]bool
 	failStop     map[string]bool
+	// failure injection by creation order (collector harness: the labels are not known before Run): the idx-th created
+	// component of the kind gets a failing Start (or Shutdown); what it landed on is recorded in injStart / injStop
+	failRules         []vFailRule
+	kindCount         map[byte]int
+	injStart, injStop []string
+	// extension labels whose NotifyConfig / Ready returns an error
+	failNotify, failReady map[string]bool
 }
 
 func newVWorld() *vWorld {
 	return &vWorld{creates: map[string]int{}, procTok: map[int]string{}, extDeps: map[int][]int{},
-		sharedMap: sharedcomponent.NewMap[int, *vInner](), failStart: map[string]bool{}, failStop: map[string]bool{}}
+		sharedMap: sharedcomponent.NewMap[int, *vInner](), failStart: map[string]bool{}, failStop: map[string]bool{},
+		failNotify: map[string]bool{}, failReady: map[string]bool{}}
+}
+
+type vFailRule struct {
+	kind byte // r p e c x
+	idx  int
+	stop bool
+}
+
+// created: called once per created component instance
+func (w *vWorld) created(kind byte, label string) {
+	if w.kindCount == nil {
+		w.kindCount = map[byte]int{}
+	}
+	n := w.kindCount[kind]
+	w.kindCount[kind] = n + 1
+	for _, r := range w.failRules {
+		if r.kind == kind && r.idx == n {
+			if r.stop {
+				if !w.failStop[label] {
+					w.failStop[label] = true
+					w.injStop = append(w.injStop, label)
+				}
+			} else if !w.failStart[label] {
+				w.failStart[label] = true
+				w.injStart = append(w.injStart, label)
+			}
+		}
+	}
 }
 
 func (w *vWorld) begin(kind, label string) int {
@@ -181,6 +213,31 @@ func (e *vExt) Shutdown(ctx context.Context) error {
 	e.nStop++
 	return e.vNode.Shutdown(ctx)
 }
+
+// every test extension is a ConfigWatcher and a PipelineWatcher: Service.Start can fail through these hooks
+// although no component's Start failed.
+var (
+	_ extensioncapabilities.ConfigWatcher   = (*vExt)(nil)
+	_ extensioncapabilities.PipelineWatcher = (*vExt)(nil)
+)
+
+func (e *vExt) NotifyConfig(context.Context, *confmap.Conf) error {
+	i := e.w.begin("notify", e.label)
+	if e.w.failNotify[e.label] {
+		return e.w.done(i, fmt.Errorf("verif NotifyConfig failure %s", e.label))
+	}
+	return e.w.done(i, nil)
+}
+
+func (e *vExt) Ready() error {
+	i := e.w.begin("ready", e.label)
+	if e.w.failReady[e.label] {
+		return e.w.done(i, fmt.Errorf("verif Ready failure %s", e.label))
+	}
+	return e.w.done(i, nil)
+}
+
+func (e *vExt) NotReady() error { return nil }
 
 var _ extensioncapabilities.Dependent = (*vExt)(nil)
 
@@ -256,6 +313,7 @@ func vDefaultCfg() component.Config { return &struct{}{} }
 func (w *vWorld) mkRecv(id component.ID, sig int) (component.Component, error) {
 	num := vIDNum(id)
 	key := fmt.Sprintf("r%d:%d", num, sig)
+	w.created('r', key)
 	if num == w.sharedID {
 		sh, err := w.sharedMap.LoadOrStore(num, func() (*vInner, error) {
 			in := &vInner{w: w, label: fmt.Sprintf("s%d", num)}
@@ -274,6 +332,7 @@ func (w *vWorld) mkRecv(id component.ID, sig int) (component.Component, error) {
 
 func (w *vWorld) mkExp(id component.ID, sig int) vAll {
 	key := fmt.Sprintf("e%d:%d", vIDNum(id), sig)
+	w.created('e', key)
 	w.creates[key]++
 	if vIDNum(id) == w.sharedExpID {
 		return w.sharedOuter(1, vIDNum(id), key)
@@ -288,12 +347,14 @@ func (w *vWorld) mkProc(id component.ID) *vNode {
 		tok = "?"
 	}
 	n := &vNode{w: w, kind: 'p', label: fmt.Sprintf("p%d@%s", num, tok)}
+	w.created('p', n.label)
 	w.procs = append(w.procs, n.label)
 	return n
 }
 
 func (w *vWorld) mkConn(id component.ID, es, rs int) vAll {
 	key := fmt.Sprintf("c%d:%d%d", vIDNum(id), es, rs)
+	w.created('c', key)
 	w.creates[key]++
 	if vIDNum(id) == w.sharedConnID {
 		return w.sharedOuter(2, vIDNum(id), key)
@@ -305,6 +366,7 @@ func (w *vWorld) mkExt(id component.ID) *vExt {
 	num := vIDNum(id)
 	e := &vExt{vNode: vNode{w: w, kind: 'x', label: fmt.Sprintf("x%d", num)}}
 	w.extInst = append(w.extInst, e)
+	w.created('x', e.label)
 	for _, d := range w.extDeps[num] {
 		e.deps = append(e.deps, vID(d))
 	}
@@ -432,24 +494,37 @@ const (
 )
 
 // vSettings fills the world's generator-derived tables and returns the inputs of the real service.New.
-func vSettings(w *vWorld, cfg vCfg) (Settings, Config) {
-	rc, pc, ec, cc, xc := map[component.ID]component.Config{}, map[component.ID]component.Config{}, map[component.ID]component.Config{}, map[component.ID]component.Config{}, map[component.ID]component.Config{}
-	rf, pf, ef := map[component.Type]receiver.Factory{}, map[component.Type]processor.Factory{}, map[component.Type]exporter.Factory{}
-	cf, xf := map[component.Type]connector.Factory{}, map[component.Type]extension.Factory{}
+// vMapsT: everything a service (or a collector) needs from one generated configuration, package-independent.
+type vMapsT struct {
+	rc, pc, ec, cc, xc map[component.ID]component.Config
+	rf                 map[component.Type]receiver.Factory
+	pf                 map[component.Type]processor.Factory
+	ef                 map[component.Type]exporter.Factory
+	cf                 map[component.Type]connector.Factory
+	xf                 map[component.Type]extension.Factory
+	pcs                pipelines.Config
+	xs                 extensions.Config
+}
+
+func vMaps(w *vWorld, cfg vCfg) vMapsT {
+	m := vMapsT{rc: map[component.ID]component.Config{}, pc: map[component.ID]component.Config{}, ec: map[component.ID]component.Config{},
+		cc: map[component.ID]component.Config{}, xc: map[component.ID]component.Config{},
+		rf: map[component.Type]receiver.Factory{}, pf: map[component.Type]processor.Factory{}, ef: map[component.Type]exporter.Factory{},
+		cf: map[component.Type]connector.Factory{}, xf: map[component.Type]extension.Factory{}, pcs: pipelines.Config{}}
 	for i := 1; i <= vMaxID; i++ {
 		id := vID(i)
-		rc[id], pc[id], ec[id] = &struct{}{}, &struct{}{}, &struct{}{}
-		rf[id.Type()], pf[id.Type()], ef[id.Type()] = w.recvFactory(id.Type()), w.procFactory(id.Type()), w.expFactory(id.Type())
+		m.rc[id], m.pc[id], m.ec[id] = &struct{}{}, &struct{}{}, &struct{}{}
+		m.rf[id.Type()], m.pf[id.Type()], m.ef[id.Type()] = w.recvFactory(id.Type()), w.procFactory(id.Type()), w.expFactory(id.Type())
 	}
 	for i := 1; i <= vMaxExtID; i++ {
 		id := vID(i)
-		xc[id] = &struct{}{}
-		xf[id.Type()] = w.extFactory(id.Type())
+		m.xc[id] = &struct{}{}
+		m.xf[id.Type()] = w.extFactory(id.Type())
 	}
 	for _, c := range cfg.conns {
 		id := vID(c.id)
-		cc[id] = &struct{}{}
-		cf[id.Type()] = w.connFactory(id.Type(), c.supp)
+		m.cc[id] = &struct{}{}
+		m.cf[id.Type()] = w.connFactory(id.Type(), c.supp)
 	}
 	ids := func(l []int) []component.ID {
 		var o []component.ID
@@ -458,49 +533,20 @@ func vSettings(w *vWorld, cfg vCfg) (Settings, Config) {
 		}
 		return o
 	}
-	pcs := pipelines.Config{}
 	for _, p := range cfg.pipes {
-		pcs[pipeline.NewIDWithName(vSignals[p.sig], strconv.Itoa(p.name))] = &pipelines.PipelineConfig{Receivers: ids(p.recv), Processors: ids(p.procs), Exporters: ids(p.exps)}
+		m.pcs[pipeline.NewIDWithName(vSignals[p.sig], strconv.Itoa(p.name))] = &pipelines.PipelineConfig{Receivers: ids(p.recv), Processors: ids(p.procs), Exporters: ids(p.exps)}
 		for _, x := range p.procs {
 			w.procTok[x] = fmt.Sprintf("%d.%d", p.sig, p.name)
 		}
 	}
-	var xs extensions.Config
 	for _, e := range cfg.exts {
-		xs = append(xs, vID(e.id))
+		m.xs = append(m.xs, vID(e.id))
 		w.extDeps[e.id] = e.deps
 	}
 	w.sharedID = cfg.shared
 	w.sharedExpID = cfg.sharedExp
 	w.sharedConnID = cfg.sharedConn
-	set := Settings{
-		BuildInfo:        component.NewDefaultBuildInfo(),
-		CollectorConf:    confmap.New(),
-		ReceiversConfigs: rc, ReceiversFactories: rf,
-		ProcessorsConfigs: pc, ProcessorsFactories: pf,
-		ExportersConfigs: ec, ExportersFactories: ef,
-		ConnectorsConfigs: cc, ConnectorsFactories: cf,
-		ExtensionsConfigs: xc, ExtensionsFactories: xf,
-		AsyncErrorChannel: make(chan error),
-		// discard sink: whatever passes the level filter goes nowhere
-		LoggingOptions: []zap.Option{zap.WrapCore(func(zapcore.Core) zapcore.Core { return zapcore.NewNopCore() })},
-	}
-	conf := Config{
-		Extensions: xs,
-		Pipelines:  pcs,
-		Telemetry: telemetry.Config{
-			Logs: telemetry.LogsConfig{
-				Level:             zapcore.ErrorLevel,
-				Encoding:          "console",
-				OutputPaths:       []string{"stderr"},
-				ErrorOutputPaths:  []string{"stderr"},
-				DisableCaller:     true,
-				DisableStacktrace: true,
-			},
-			Metrics: telemetry.MetricsConfig{Level: configtelemetry.LevelNone},
-		},
-	}
-	return set, conf
+	return m
 }
 
 // ---- generator (pipelines / connectors: copied from harness/c09/graph_test.go) --------------------
